@@ -597,6 +597,7 @@ func runC10(c *Ctx) {
 	}
 	runC10Round3(c)
 	runC10ReentrantShutdown(c)
+	runC10SharedStart(c)
 }
 
 // reachableFromFailure: target is reachable from the err!=nil side of the If testing call's result.
